@@ -224,6 +224,67 @@ class Gen:
         return "\n".join(out) + "\n", root
 
 
+def gen_selection_doc(rng):
+    """A document and updates whose target is SELECTED (by value, by a test on the key, through a splat inside
+    select) rather than addressed by a path.  Two shapes: a list of groups in which the key that the
+    selection splats is null / empty / missing in the entries that are not targeted, and maps whose keys contain
+    the glob characters * and ? next to keys those patterns would match."""
+    n = [0]
+
+    def c(p):
+        n[0] += 1
+        return "%s%d" % (p, n[0])
+    out, ups = [], []
+    if rng.random() < 0.5:
+        out.append("# " + c("lead"))
+        out.append("")
+    if rng.random() < 0.5:
+        people = ["alice", "bob", "carol", "dave"]
+        hit = rng.randrange(0, 3)
+        out.append("groups:")
+        for i in range(3):
+            if rng.random() < 0.4:
+                out.append("  # " + c("hc"))
+            out.append("  - name: g%d%s" % (i, (" # " + c("lc")) if rng.random() < 0.4 else ""))
+            if i == hit:
+                mem = rng.choice(["[alice, bob]", "[bob]", "\n      - bob\n      - dave"])
+            else:
+                mem = rng.choice(["~", "", "null", "[]", "[alice]", "[carol, dave]", "~ # " + c("lc"), "MISSING"])
+            if mem != "MISSING":
+                out.append("    members:" + ((" " + mem) if mem and not mem.startswith("\n") else mem))
+            out.append("    active: true%s" % ((" # " + c("lc")) if rng.random() < 0.3 else ""))
+            if rng.random() < 0.3:
+                out.append("    # " + c("fc"))
+                out.append("")
+        out.append("other: 'kept' # " + c("lc"))
+        P = ["groups", hit, "active"]
+        sel = '.groups[] | select(.members[] == "bob")'
+        ups.append({"kind": "assign", "path": P, "expr": "(%s).active = false" % sel, "value": ("false", "!!bool", "false"), "selected": True})
+        ups.append({"kind": "assign", "path": P, "expr": "(%s | .active) |= false" % sel, "value": ("false", "!!bool", "false"), "selected": True})
+        ups.append({"kind": "delete", "path": P, "expr": "del(%s | .active)" % sel, "selected": True})
+        ups.append({"kind": "delete", "path": ["groups", hit], "expr": "del(%s)" % sel, "selected": True})
+    else:
+        glob, sibs = rng.choice([("*.example.com", ["www.example.com", "api.example.com"]), ("a?", ["ab", "ac", "a"]), ("*", ["x", "y"]),
+                                 ("k*", ["k1", "key", "ok"]), ("?", ["a", "b", "cc"]), ("a*c", ["abc", "ac", "abd"])])
+        entries = [(glob, "legacy")] + [(k, "v%d" % i) for i, k in enumerate(sibs)]
+        rng.shuffle(entries)
+        out.append("hosts:")
+        for k, v in entries:
+            if rng.random() < 0.4:
+                out.append("  # " + c("hc"))
+            out.append('  "%s": %s%s' % (k, v, (" # " + c("lc")) if rng.random() < 0.5 else ""))
+            if rng.random() < 0.25:
+                out.append("  # " + c("fc"))
+                out.append("")
+        out.append("other: 'kept'")
+        P = ["hosts", glob]
+        ups.append({"kind": "delete", "path": P, "expr": 'del(.hosts[] | select(. == "legacy"))', "selected": True})
+        ups.append({"kind": "delete", "path": P, "expr": 'del(.hosts.[] | select(. == "legacy"))', "selected": True})
+        ups.append({"kind": "delete", "path": P, "expr": 'del(.hosts | .. | select(. == "legacy"))', "selected": True})
+        ups.append({"kind": "assign", "path": P, "expr": '(.hosts[] | select(. == "legacy")) = "zed"', "value": ('"zed"', "!!str", "zed"), "selected": True})
+    return "\n".join(out) + "\n", ups
+
+
 def gen_case_doc(rng):
     g = Gen(rng)
     text, root = g.document()
@@ -699,26 +760,39 @@ def run(chk):
                 fixed.append(json.loads(ln))
     for _ in range(ndocs):
         docs.append(gen_case_doc(rng))
+    # documents built around one kind of selection (updates addressed by value / select(...), see gen_selection_doc)
+    special = {}
+    for _ in range(max(30, ndocs // 5)):
+        text, ups = gen_selection_doc(rng)
+        special[len(docs)] = ups
+        docs.append(text)
 
     # normalise once through yq so that `yq .` is the identity on the documents we use
     r0 = vlib.yqh_parallel([{"op": "eval", "expr": ".", "input": d, "in": "yaml", "out": "yaml"} for d in docs])
     norm = []
+    norm_special = []
     unusable = 0
-    for d, r in zip(docs, r0):
+    for i, (d, r) in enumerate(zip(docs, r0)):
         if r is None or r.get("err") or r.get("panic") or "out_b64" not in r:
             unusable += 1
             continue
         norm.append(vlib.b64d(r["out_b64"]).decode("utf-8", "replace"))
+        norm_special.append(special.get(i))
     r1 = vlib.yqh_parallel([{"op": "eval", "expr": ".", "input": d, "in": "yaml", "out": "yaml"} for d in norm])
     p1 = vlib.yqh_parallel([{"op": "ynodes", "input": d} for d in norm])
     cases = []
     not_idem = 0
-    for d, r, p in zip(norm, r1, p1):
+    for d, r, p, sp in zip(norm, r1, p1, norm_special):
         if r is None or r.get("err") or vlib.b64d(r.get("out_b64", "")).decode("utf-8", "replace") != d or p is None or p.get("err") or not p.get("docs"):
             not_idem += 1
             continue
         tb = tables(p["docs"])
         if () not in tb[0]:
+            continue
+        if sp is not None:
+            for u in sp:
+                if tuple(u["path"]) in tb[0]:
+                    cases.append((d, dict(u, path=tuple(u["path"])), p["docs"]))
             continue
         for u in make_updates(rng, tb[0], p["docs"][0]["content"][0]):
             cases.append((d, u, p["docs"]))
@@ -761,7 +835,7 @@ def run(chk):
             else:
                 viol.append((d, u, o, diffs, sig))
         # correspondence with the model for the update kinds it covers
-        if len(docs0) == 1 and len(pr["docs"]) == 1 and not u.get("rel") and not u.get("subtree") and u["kind"] not in ("mapappend", "padassign") \
+        if len(docs0) == 1 and len(pr["docs"]) == 1 and not u.get("rel") and not u.get("subtree") and not u.get("selected") and u["kind"] not in ("mapappend", "padassign") \
                 and docs0[0].get("content") and pr["docs"][0].get("content"):
             root0 = docs0[0]["content"][0]
             cp = content_path(root0, u["path"])
